@@ -80,6 +80,10 @@ ATTR = [
     (r"^tick-(target|no-alarm|after-end)", ["C08", "C12", "C13"]),
     (r"^time-mismatch-(start|run-begin)$", ["C12"]),
     (r"^time-mismatch-", ["C11"]),
+    (r"^shutdown-swallows-cancel-parent-aborted-critical$", ["C13", "C11", "C05"]),
+    (r"^shutdown-swallows-cancel-parent-aborted-timeout$", ["C13", "C11", "C08"]),
+    (r"^shutdown-swallows-cancel-parent-aborted-success$", ["C13", "C11", "C09"]),
+    (r"^shutdown-swallows-cancel", ["C13", "C11"]),
     (r"^shutdown-repeated$", ["C13"]),
     (r"^shutdown-while-live$", ["C13", "C11"]),
     (r"^shutdown-in-main$", ["C13", "C02", "C09"]),
